@@ -12,12 +12,17 @@ import os
 _HERE = os.path.dirname(os.path.dirname(os.path.abspath(__file__)))
 
 
+_OPEN_CACHE = {}
+
+
 def _open_keys(pid):
-    try:
-        with open(os.path.join(_HERE, "known_findings.json")) as f:
-            return {e["key"] for e in json.load(f)["findings"] if e.get("status") == "open" and e.get("property") == pid}
-    except Exception:
-        return set()
+    if pid not in _OPEN_CACHE:
+        try:
+            with open(os.path.join(_HERE, "known_findings.json")) as f:
+                _OPEN_CACHE[pid] = {e["key"] for e in json.load(f)["findings"] if e.get("status") == "open" and e.get("property") == pid}
+        except Exception:
+            _OPEN_CACHE[pid] = set()
+    return _OPEN_CACHE[pid]
 
 
 CLASSIFIERS = {}
